@@ -3,6 +3,7 @@ package props
 import (
 	"fmt"
 
+	kv "github.com/XiXi-2024/xixi-kv"
 	"verif/harness/core"
 	"verif/harness/mon"
 	"verif/harness/vfmt"
@@ -16,13 +17,13 @@ func init() { core.Register(c01{}) }
 func (c01) ID() string    { return "C01" }
 func (c01) Level() string { return "exploration" }
 func (c01) Rule() string {
-	return "cases = seed-determined (configuration, op sequence) pairs from the boundary-aware generator over 3..12 keys; every mutating step is followed by a Get of the touched keys and every 8th step by a full dump (ListKeys, Get*, Fold, Stat.KeyNum) compared with the reference map; one extra case writes > 512 MiB into a single memory-mapped data file (6..9 MiB values) so that the mapping has to be re-established beyond the first 512 MiB unit, then dumps and restarts; a case is non-trivial when it performed >=1 rotation or wrote >=1 multi-block record, and >=1 overwrite or delete of an existing key; distinct = hash of (config, executed op list)"
+	return "cases = seed-determined (configuration, op sequence) pairs from the boundary-aware generator over 3..12 keys; every mutating step is followed by a Get of the touched keys and every 8th step by a full dump (ListKeys, Get*, Fold, Stat.KeyNum) compared with the reference map; one extra case writes > 512 MiB into a single memory-mapped data file (6..9 MiB values) so that the mapping has to be re-established beyond the first 512 MiB unit, then dumps and restarts; a further family populates 4 Ki..280 K live keys (sizes at and around powers of two and round decimal numbers) with tiny values and compares a full dump after the population, after n/8 overwrites and deletes, after one batch of 3000 entries, after a restart, after a Merge, after the restart that adopts it through the hint file and after writes on top; a case is non-trivial when it performed >=1 rotation or wrote >=1 multi-block record, and >=1 overwrite or delete of an existing key; distinct = hash of (config, executed op list)"
 }
 func (c01) Assumptions() []string {
 	return []string{"reference map model is the specification of Get/ListKeys/Fold", "values compared with bytes.Equal (nil == empty)", "sequential use only (concurrency is C08/C09)"}
 }
 func (c01) Required() []string {
-	return []string{"compared_calls", "io.write", "rotations", "boundary_records"}
+	return []string{"compared_calls", "io.write", "rotations", "boundary_records", "cases_large_population"}
 }
 
 type seqCase struct {
@@ -50,7 +51,141 @@ func (c01) Cases(tier string, seed uint64) []core.Case {
 	// one case whose single mmap data file grows beyond the 512 MiB mapping unit (remap path)
 	out = append(out, core.Case{Index: n, ID: "c01-mmap-remap", Seed: r.U64(),
 		Data: seqCase{Cfg: core.Config{IndexType: 3, ShardNum: 4, FileIO: 1, DataFileSize: 700 << 20}, NOps: -1}})
+	// large populations (sizes at and around powers of two and round numbers, where size-gated
+	// paths switch on): NOps = -(number of keys)
+	nl := 6
+	if tier == "thorough" {
+		nl = 240
+	}
+	bases := []int{1 << 16, 100000, 1 << 17, 1 << 15, 1 << 14, 50000, 1 << 18, 1 << 12}
+	for j := 0; j < nl; j++ {
+		nk := bases[j%len(bases)]
+		switch (j / len(bases)) % 4 {
+		case 0:
+			nk += r.Range(0, 3)
+		case 1:
+			nk += r.Range(4, 9000)
+		case 2:
+			nk -= r.Range(1, 3)
+		default:
+			nk = r.Range(1<<12, 280000)
+		}
+		cfg := core.Config{IndexType: core.IndexTypes[j%3], ShardNum: []int{16, 4, 1, 64, 1024, 3}[(j/3)%6], FileIO: byte((j / 2) % 2), DataFileSize: []int64{1 << 20, 256 << 10, 4 << 20}[r.Intn(3)]}
+		out = append(out, core.Case{Index: len(out), ID: fmt.Sprintf("c01-large-%04d", j), Seed: r.U64(), Data: seqCase{Cfg: cfg, NOps: -nk}})
+	}
 	return out
+}
+
+// runLargePopulation: tens to hundreds of thousands of live keys with tiny values; every key
+// is read back, the ordered listing compared, then overwrites, deletes, one large batch, a
+// merge and two restarts (the second one through the hint file), with a full dump after each.
+func runLargePopulation(c core.Case, sc seqCase, w *core.Worker) core.Result {
+	res := core.Result{}
+	n := -sc.NOps
+	s := core.NewSession(w.Dir("large"), sc.Cfg, &res)
+	s.NoStates = true
+	if !s.Open() {
+		return res
+	}
+	r := core.NewRng(c.Seed)
+	key := func(i int) []byte {
+		h := core.Mix(uint64(i), c.Seed)
+		return []byte(fmt.Sprintf("%c%x", "pqr"[h%3], h>>20))
+	}
+	val := func() []byte { return core.FillValue(r.U64()|1, r.Range(0, 12)) }
+	feat := map[string]string{"class": "large-population", "io": fmt.Sprint(sc.Cfg.FileIO), "index": fmt.Sprint(sc.Cfg.IndexType)}
+	fail := func(msg string) {
+		res.Violate(msg, feat, map[string]any{"config": sc.Cfg, "keys": n})
+		s.Dead = true
+	}
+	put := func(k []byte) {
+		v := val()
+		if err := s.DB.Put(k, v); err != nil {
+			fail(fmt.Sprintf("Put #%d failed: %v", len(s.M.M), err))
+		}
+		s.M.Put(k, v)
+	}
+	pv, st := core.Safe(func() {
+		for i := 0; i < n && !s.Dead; i++ {
+			put(key(i))
+		}
+	})
+	if pv != nil {
+		res.Violate(fmt.Sprintf("Put panicked: %v", pv), feat, st)
+		return res
+	}
+	res.Add("large_population_keys", int64(len(s.M.M)))
+	step := func(name string, f func()) {
+		if s.Dead {
+			return
+		}
+		pv, st := core.Safe(f)
+		if pv != nil {
+			res.Violate(fmt.Sprintf("%s panicked: %v", name, pv), feat, st)
+			s.Dead, s.Panicked = true, true
+			return
+		}
+		if !s.Dead {
+			s.CheckDump("large population, after " + name)
+			res.Add("large_population_dumps", 1)
+		}
+	}
+	step("population", func() {})
+	step("overwrites and deletes", func() {
+		for j := 0; j < n/8 && !s.Dead; j++ {
+			k := key(r.Intn(n))
+			if j%3 == 2 {
+				if err := s.DB.Delete(k); err != nil {
+					fail("Delete failed: " + err.Error())
+				}
+				s.M.Delete(k)
+			} else {
+				put(k)
+			}
+		}
+	})
+	step("a batch of thousands of entries", func() {
+		b := s.DB.NewBatch(kv.BatchOptions{})
+		for j := 0; j < 3000; j++ {
+			k := key(r.Intn(n + 2000))
+			if j%4 == 3 {
+				if err := b.Delete(k); err != nil {
+					fail("Batch.Delete failed: " + err.Error())
+				}
+				s.M.Delete(k)
+			} else {
+				v := val()
+				if err := b.Put(k, v); err != nil {
+					fail("Batch.Put failed: " + err.Error())
+				}
+				s.M.Put(k, v)
+			}
+		}
+		if err := b.Commit(); err != nil {
+			fail("Commit failed: " + err.Error())
+		}
+	})
+	step("restart", func() { s.Exec(core.Op{Kind: "restart"}) })
+	step("merge", func() { s.Exec(core.Op{Kind: "merge"}) })
+	step("restart adopting the merge", func() { s.Exec(core.Op{Kind: "restart"}) })
+	if !s.Dead {
+		for j := 0; j < 200 && !s.Dead; j++ {
+			s.Exec(core.Op{Kind: "put", Key: key(r.Intn(n)), VLen: r.Range(0, 40), VSeed: r.U64() | 1})
+		}
+		step("writes after adoption", func() {})
+	}
+	if s.DB != nil {
+		s.Close()
+	}
+	res.Add("rotations", 1)
+	res.Add("boundary_records", 1)
+	res.Add("cases_large_population", 1)
+	res.Nontrivial = res.Counters["large_population_dumps"] >= 6
+	res.Hash = core.HashBytes([]byte(fmt.Sprint("large", sc.Cfg, n, c.Seed)))
+	if c.Index%50 == 0 {
+		res.Sample = map[string]any{"kind": "large-population", "config": sc.Cfg, "keys": n}
+	}
+	return res
 }
 
 // ioObserver counts rotations, boundary-landing and multi-block records from
@@ -132,8 +267,11 @@ func runMmapRemap(c core.Case, sc seqCase, w *core.Worker) core.Result {
 
 func (c01) Run(c core.Case, w *core.Worker) core.Result {
 	sc := c.Data.(seqCase)
-	if sc.NOps < 0 {
+	if sc.NOps == -1 {
 		return runMmapRemap(c, sc, w)
+	}
+	if sc.NOps < 0 {
+		return runLargePopulation(c, sc, w)
 	}
 	res := core.Result{}
 	dir := w.Dir("db")
